@@ -103,7 +103,10 @@ NONPOS_KEYS = [["imaging", "frame rate"], ["imaging", "pixel size"],
                ["setup", "channel width"], ["setup", "flow rate"]]
 NONPOS_VALS = [0.0, -0.0, -1.0, -1e-9, -2.5e3]
 UNKNOWN_NAMES = ["foo", "deform2", "Image", "userdef10", "fl4_max", "ml_score_ab",
-                 "ml_score_ABC", "area", "tracee", "index_offline"]
+                 "ml_score_ABC", "area", "tracee", "index_offline",
+                 # valid names extended at either end
+                 "ml_score_abcd", "ml_score_0012", "xml_score_abc", "userdef1x",
+                 "area_um2", "ml_score_abc_old"]
 OPS_ALL = ["compress", "repack", "repack_strip", "condense", "condense_noanc",
            "export", "export_filtered", "export_basins", "child_export", "split",
            "join"]
